@@ -110,6 +110,8 @@ struct World {
     if (!ok) { sent.resize(sent.size() - d.size()); if (can_write) viol = "send-returned-false"; }     // refused bytes were never handed over
   }
   void on_recv(util::Buffer &b) {
+    if (!tcp_mode && !running) { viol = "receive-callback-while-the-descriptor-is-disabled"; return; }
+    if (tcp_mode && dead) { viol = "receive-callback-after-the-user-disconnected"; return; }
     if (bound) { viol = "receive-callback-while-a-receiver-is-bound"; return; }
     size_t n = b.readableSize(); if (n < threshold) { viol = "receive-callback-below-threshold"; return; }
     if (consumed + n > peer_wrote.size() || memcmp(b.readableBegin(), peer_wrote.data() + consumed, n) != 0) { viol = "receive-callback-content-not-the-unconsumed-bytes-in-order"; return; }
@@ -128,11 +130,13 @@ struct World {
     consumed += n; if (consumed > presented_hi) presented_hi = consumed;
   }
   void on_zero() { zero_cb++; if (zero_cb > 1) viol = "peer-close-reported-more-than-once";
+    if (viol.empty() && !tcp_mode && !running) viol = "peer-close-reported-while-the-descriptor-is-disabled";         // a disabled descriptor does no I/O: a report now was decided before the user's disable() and not re-checked after it (wave 7)
     if (viol.empty() && !peer_closed) viol = "peer-close-reported-although-the-peer-did-not-close";
     if (viol.empty() && unseen_due()) viol = "peer-close-reported-before-all-preceding-data-was-presented";          // by the model
     if (!tcp_mode) { util::Buffer *rb = recv_buffer();       // diagnostic cross-check through the public accessor; the model clause above decides
       if (viol.empty() && rb && consumed + rb->readableSize() != peer_wrote.size()) viol = "peer-close-reported-before-all-preceding-data-was-read"; bfd->disable(); running = false; } }
   void on_disconnected() { zero_cb++; if (zero_cb > 1) viol = "disconnect-reported-more-than-once";
+    if (viol.empty() && dead) viol = "disconnect-reported-after-the-user-disconnected";
     if (viol.empty() && unseen_due()) viol = "disconnect-reported-before-all-preceding-data-was-presented";
     if (viol.empty() && !peer_closed) viol = "disconnect-reported-although-the-peer-did-not-close";
     dead = true; }
